@@ -104,7 +104,7 @@ REG.bounded_check("C12.totality", ["C12"], "C12.bounded",
 
 # additions of the third wave of seeded changes (kept apart so that the texts above stay as they were reviewed)
 _EXTRA = {
-    "C03.literal_membership": "; wave 3: + unions of >= 10 literal arms with a non-literal arm (unhashable objects), TypedDicts with Optional / NotRequired values against dicts holding None, type / ABCMeta / a Thrift-style enum class, class objects as values (46 objects x 57 types)",
+    "C03.literal_membership": "; wave 3: + unions of >= 10 literal arms with a non-literal arm (unhashable objects), TypedDicts with Optional / NotRequired values against dicts holding None, type / ABCMeta / a Thrift-style enum class, class objects as values, an Enum class included (47 objects x 57 types; known findings D57 / D58)",
     "C04.type_pairs": "; wave 3: the same extended universe (57 x 57 types), + a generic protocol asked with two instantiations in both orders on one checker (was known finding D22), leniency L3 (bare `type` read as type[Any])",
     "C05.binding": "; wave 3: + 9 calls to nested defs that shadow module-level functions and 40 calls to (inherited) static / class / instance methods through an instance and through the class, compared with executing the call",
     "C06.calls": "; wave 3: + 9 calls mixing explicit keywords with a **mapping against a typed **kwargs, 5 calls solving a bound TypeVar from callback parameters only",
